@@ -93,6 +93,10 @@ def run_scenario(sc):
         return _run_scenario(sc)
     except mirror.Cyclic:
         return True, 'skipped (cyclic unifier, unspecified)'
+    except RecursionError:
+        return True, 'skipped (recursion depth)'
+    except Exception as e:      # noqa: the engine raised where the specification has an outcome
+        return False, 'the engine raised %s: %s' % (type(e).__name__, e)
 
 
 def _run_scenario(sc):
@@ -136,7 +140,10 @@ def _run_scenario(sc):
         got = w.back(r)
         if got != want:
             return False, 'get_value(%s) under %s: got %s, want %s' % (t1, s, got, want)
-        tp = engine.to_python(w.build(t1))
+        try:
+            engine.to_python(w.build(t1))
+        except (TypeError, IndexError):
+            pass            # to_python of a partial list / of '.' with another arity than 2 is unspecified
         return True, 'ok'
     if sc.get('swap'):
         t1, t2 = t2, t1
@@ -221,6 +228,16 @@ def cases(size, seed, limit):
         for t2 in terms:
             allc.append((t1, t2))
     rng.shuffle(allc)
+    # the list functor '.' with other arities than 2, and lists of different lengths: never special-cased by name
+    a, b, c = ('atom', 'a'), ('atom', 'b'), ('atom', 'c')
+    v0, v1 = ('var', 0), ('var', 1)
+    dot = lambda *xs: ('fun', '.', tuple(xs))      # noqa: E731
+    nil = ('atom', '[]')
+    special = [(dot(a, b), dot(a, b, c)), (dot(a, b, c), dot(a, b)), (dot(v0, v1), dot(a, b, c)), (dot(a), dot(a, b)), (dot(a, b), dot(a)),
+               (dot(a, nil), dot(a, nil, nil)), (dot(a, dot(b, nil)), dot(a, dot(b, nil), c)), (dot(a, dot(b, nil)), dot(a, dot(b, dot(c, nil)))),
+               (dot(a, v0), dot(a, dot(b, nil))), (dot(a, dot(b, v0)), dot(v1, dot(b, dot(c, nil)))), (dot(v0, v0), dot(a, b)),
+               (dot(a, b, c), dot(a, b, c)), (dot(a, b, v0), dot(a, b, c)), (('fun', 'g', (a, b)), ('fun', 'g', (a, b, c)))]
+    allc = special + [(y, x) for x, y in special] + allc
     n = 0
     hows = ['exhaust', 'close', 'drop', 'throw']
     for (t1, t2) in allc:
